@@ -447,6 +447,18 @@ impl RE {
     pub fn included_in(&self, other: &Self) -> bool {
         sub_language(self, other)
     }
+
+    /// Verification hook: read-only view of the abstract syntax tree of this term
+    #[cfg(aws_smt_strings_verif)]
+    pub fn verif_expr(&self) -> &BaseRegLan {
+        &self.expr
+    }
+
+    /// Verification hook: unique id of this term
+    #[cfg(aws_smt_strings_verif)]
+    pub fn verif_id(&self) -> usize {
+        self.id
+    }
 }
 
 /// Iterator to go through all sub-terms of a RegLan
@@ -2318,6 +2330,23 @@ impl ReManager {
     /// ```
     pub fn try_compile(&mut self, e: RegLan, max_states: usize) -> Option<Automaton> {
         self.compile_with_bound(e, max_states)
+    }
+
+    /// Verification hook: drop the derivative-cache entries for which `keep` returns false.
+    ///
+    /// The predicate receives the id of the term and the class id of the cache key.
+    /// Returns the number of entries removed.
+    #[cfg(aws_smt_strings_verif)]
+    pub fn verif_evict_deriv_cache(&mut self, mut keep: impl FnMut(usize, ClassId) -> bool) -> usize {
+        let before = self.deriv_cache.len();
+        self.deriv_cache.retain(|k, _| keep(k.0.id, k.1));
+        before - self.deriv_cache.len()
+    }
+
+    /// Verification hook: (number of terms in the store, length of id2re, number of cached derivatives)
+    #[cfg(aws_smt_strings_verif)]
+    pub fn verif_stats(&self) -> (usize, usize, usize) {
+        (self.store.counter, self.id2re.len(), self.deriv_cache.len())
     }
 }
 
